@@ -13,9 +13,12 @@ ID = "C07"
 WITNESS = ("eps", "round")
 RULE = (
     "rule-based state machine per geometry type (Point, Line, Plane, Segment, HalfLine, ConvexPolygon, "
-    "ConvexPolyhedron): an initial lattice object (built from float or, where integral, Python int coordinates), "
-    "then up to 12 steps drawn from move(v, continue on the "
-    "receiver | continue on the returned object) with lattice v including zero and axis vectors, deepcopy, "
+    "ConvexPolyhedron): an initial lattice object (built from float or, where integral, Python int coordinates) of a "
+    "drawn provenance - fresh through any constructor form (incl. a Segment whose end point was replaced by item "
+    "assignment), a deep copy, the receiver or the result of an earlier move, intersection(x, x), -x and -(-x) for "
+    "planes and polygons, a polyhedron from flipped faces - then up to 12 steps drawn from move(v, continue on the "
+    "receiver | continue on the returned object) with lattice v including zero, axis, equal-component vectors and "
+    "far moves (|v| >= 7, back towards the origin), deepcopy, "
     "there-and-back (v then -v), and query(other) where the other operand (Point/Line/HalfLine/Segment/Plane/"
     "triangle/tetrahedron) is built from feature points of the exact model at its current position. After every "
     "step the receiver and the value just returned are compared with a freshly constructed object at the "
@@ -25,17 +28,22 @@ RULE = (
     "to the exact ones (1e-9); every query (intersection both orders, "
     "supported membership both directions, distance, angle, parallel, orthogonal) gives the same answer on "
     "receiver, returned object and fresh object, and intersection/membership also agree with the exact oracle. "
+    "Objects that left the stage (earlier receivers, earlier returned objects, originals of deep copies) are kept: "
+    "after every step each must still be self-consistent (a plane contains its own point and its general form does, "
+    "cached lines pass through the end points, face planes / centres / point_set agree with the vertices, the body "
+    "contains its own vertices) and - for Point, Segment, HalfLine, ConvexPolygon, ConvexPolyhedron, and for originals "
+    "of deep copies of any type - must still be where it was (only the moves applied to an object translate it). "
     "non-trivial = history with >= 2 moves and >= 1 query on a receiver after it moved; distinct = distinct history."
 )
 ASSUMPTIONS = [
-    "only the current receiver and the value just returned are observed; nothing is asserted about older return values",
+    "Lines and Planes returned by move may share their support with the receiver (the library's Planes and Lines do not own their constructor arguments, as C20 states): for those only self-consistency of earlier objects is asserted, not their position",
     "float coordinates; failing histories are reported only inside the admission domain (exact margins of every queried pair > 1e-3, run-time tolerance/rounding witness)",
 ]
 
 KINDS = ("P", "L", "PL", "S", "H", "G", "K")
 VECS = [tuple(F(c) for c in v) for v in [(0, 0, 0), (1, 0, 0), (0, -2, 0), (0, 0, 1), (1, 2, -1), (-2, 1, 3), (3, -1, -2), (0, 1, 1)]] + [
     (F(1, 2), F(-3, 2), F(1)), (F(-1, 4), F(1, 2), F(3, 4))
-]
+] + [tuple(F(c) for c in v) for v in [(1, 1, 1), (-2, -2, -2), (2, 2, -1), (-1, 3, 3), (1, -1, 0), (0, 0, -3)]] + [(F(1, 2), F(1, 2), F(1, 2)), (F(-3, 4), F(-3, 4), F(-3, 4))]
 
 _COMMON = ("fresh", "fresh", "fresh", "copy", "moved", "moved-ret", "inter")
 PROVS = {  # how the object a history starts from was obtained (constructor form, negation, copy, earlier move, intersection result)
@@ -183,6 +191,7 @@ class Executor(object):
             v = VECS[4]
             base = B.build(X.translate(self.model, X.mul(F(-1), v)), self.ct)
             r = self.guard("move", lambda: base.move(B.vec(v, self.ct)))
+            self.also = r if pv == "moved" else base
             return base if pv == "moved" else r
         if pv == "inter":
             o2 = self.fresh()
@@ -194,13 +203,22 @@ class Executor(object):
 
     def start(self):
         self.facts["provenance"] = self.prov
+        self.also = None
         self.cur = self.initial()
+        self.retire(self.also)
         self.invariant("initial")
 
-    def retire(self, o):
-        if o is None or any(o is b for b in self.bystanders) or o is self.cur:
+    def retire(self, o, model=None, copied=False):
+        """o leaves the stage at the position `model` (default: the current one).  Later moves act on other objects;
+        Point, Segment, HalfLine, ConvexPolygon and ConvexPolyhedron hand back freshly constructed objects from move
+        (and a deep copy of anything is independent), so a retired object of these kinds is itself only translated by
+        the moves applied to it, i.e. it stays where it was.  A Line or Plane returned by move may share its support
+        with the receiver (Planes and Lines do not own their constructor arguments): only self-consistency is
+        observed for those."""
+        stays = copied or self.kind not in ("L", "PL")
+        if o is None or any(o is b[0] for b in self.bystanders) or (o is self.cur and not stays):
             return
-        self.bystanders.append(o)
+        self.bystanders.append((o, model if model is not None else self.model, stays))
         del self.bystanders[:-4]
 
     def targets(self):
@@ -235,12 +253,12 @@ class Executor(object):
             self.cur = self.guard("deepcopy", lambda: copy.deepcopy(self.cur))
             self.retire(self.ret)
             self.ret = None
-            self.retire(old)
+            self.retire(old, copied=True)
             self.invariant("after deepcopy")
         elif name == "back":
             v = VECS[step[1] % len(VECS)]
             self.retire(self.ret)
-            self.retire(self.guard("move", lambda: self.cur.move(B.vec(v, self.ct))))
+            self.retire(self.guard("move", lambda: self.cur.move(B.vec(v, self.ct))), X.translate(self.model, v))
             self.ret = self.guard("move back", lambda: self.cur.move(B.vec(X.mul(F(-1), v), self.ct)))
             self.moves += 2
             self.invariant("after move by v and -v")
@@ -334,8 +352,13 @@ class Executor(object):
                 if not _num_eq(self.guard("area", o.area), X.surface_area(model)) or not _num_eq(self.guard("length", o.length), X.perimeter(model)):
                     raise Fail("%s [K]: area/length changed" % tag, {}, self.facts)
 
-        for i, b in enumerate(self.bystanders):
-            self.self_consistent(b, "an earlier receiver/returned object (%s)" % when)
+        for b, bmodel, stays in self.bystanders:
+            tag = "an earlier receiver/returned object (%s)" % when
+            self.self_consistent(b, tag)
+            if stays:
+                why = B.same_set(B.fdesc(bmodel), B.denote(b))
+                if why:
+                    raise Fail("%s [%s]: moved although only another object was moved: %s" % (tag, k, why), {"expected": bmodel, "got": B.denote(b)}, self.facts)
 
     def self_consistent(self, o, tag):
         """what must hold for any live object wherever it is: its derived public state agrees with its defining
